@@ -164,7 +164,65 @@ def expected_context(pos, mod, scs):
     return {best, best.parent}, 'header'
 
 
-def check_text(tid, text, others, modname='main', relpath='main.py'):
+# editor histories: the same path analysed with an earlier text first (parso re-uses and
+# re-parents the unchanged nodes of the earlier tree)
+HISTORY_BASE = '''\
+class Circle:
+    radius = 1
+class Square:
+    side = 2
+    def area(self):
+        def helper(val):
+            return val * val
+        return 3 * helper(self.side)
+    class Meta:
+        frozen = True
+def outer_fn():
+    marker = 0
+    def inner_fn():
+        return marker
+    return inner_fn
+'''
+
+
+# definitions spelled like the implementation modules that full_name maps to public ones
+# (classes.py: `_mapping` applies to the FIRST component of the path, the module, only)
+FIXED_TEXTS = {
+    'alias-names': '''\
+class posix:
+    class _io:
+        def genericpath(self):
+            return 1
+    def _collections(self):
+        return 2
+    _sqlite3 = 3
+def _functools():
+    def posixpath():
+        return 4
+    return posixpath
+class ntpath:
+    _socket = 5
+''',
+}
+
+
+def history_pairs():
+    """(id, earlier text, later text): every single-line deletion of HISTORY_BASE that still
+    parses, in both directions (delete the line / type the line)."""
+    lines = HISTORY_BASE.split('\n')[:-1]
+    out = []
+    for k in range(len(lines)):
+        cut = '\n'.join(lines[:k] + lines[k + 1:]) + '\n'
+        try:
+            ast.parse(cut)
+        except SyntaxError:
+            continue
+        out.append(('del%d' % (k + 1), HISTORY_BASE, cut))
+        out.append(('ins%d' % (k + 1), cut, HISTORY_BASE))
+    return out
+
+
+def check_text(tid, text, others, modname='main', relpath='main.py', prior=()):
     jedi = boot.boot()
     env = boot.environment()
     base = os.path.join(boot.scratch_root(), 'c18', '%d_%s' % (os.getpid(), abs(hash(tid)) % 10 ** 8))
@@ -189,6 +247,16 @@ def check_text(tid, text, others, modname='main', relpath='main.py'):
         execute.write_tree(base, files)
         project = jedi.Project(base)
         path = os.path.join(base, relpath)
+        for earlier in prior:
+            # the questions an outline view asks, on the earlier text at the same path
+            es = jedi.Script(earlier, path=path, environment=env, project=project)
+            for n in es.get_names(all_scopes=True, definitions=True, references=False):
+                out['evals'] += 1
+                p, guard = n.parent(), 0
+                while p is not None and guard < 20:
+                    p, guard = p.parent(), guard + 1
+            for li in range(1, earlier.count('\n') + 1):
+                es.get_context(li, len(earlier.split('\n')[li - 1]))
         script = jedi.Script(text, path=path, environment=env, project=project)
         mod, scs = scopes_of(text)
         for (l, c, s) in code_tokens(text):
@@ -291,6 +359,11 @@ def _work(task):
         rel, modname, others = LOCATIONS[task['loc']]
         return check_text('loc:%s:%s' % (rel, '>'.join(task['seq'])), render_shape(task['seq']),
                           others, modname=modname, relpath=rel)
+    if task['kind'] == 'fixed':
+        return check_text('fixed:' + task['name'], FIXED_TEXTS[task['name']], {})
+    if task['kind'] == 'history':
+        hid, earlier, later = [h for h in history_pairs() if h[0] == task['hid']][0]
+        return check_text('history:' + hid, later, {}, prior=[earlier])
     if task['kind'] == 'shape':
         return check_text('shape:' + '>'.join(task['seq']), render_shape(task['seq']), {})
     if task['kind'] == 'pf':
@@ -313,6 +386,9 @@ def _levels(tier):
     lv.append(('file locations below the project root x shapes depth<=%d' % (1 if tier == 'quick' else 2),
                [dict(kind='located', loc=k, seq=list(s)) for k in range(len(LOCATIONS))
                 for s in shapes(1 if tier == 'quick' else 2)]))
+    lv.append(('two-step histories on one path: every single-line deletion/insertion that parses',
+               [dict(kind='history', hid=h[0]) for h in history_pairs()]
+               + [dict(kind='fixed', name=k) for k in sorted(FIXED_TEXTS)]))
     if tier == 'quick':
         lv.append(('PF depth1 x {inst}', [dict(kind='pf', src='inst', chain=[c])
                                           for c in pf.CARRIER_NAMES]))
